@@ -216,6 +216,25 @@ def ts_bin(a, b, p):
 
 
 @maker(MAKERS)
+def ts_scalar(k, a):
+    """k * TranslateScale: exact against the model, and its affine form equals k * Affine::from(ts) (every coefficient scaled)"""
+    line = f'ts.scalar {H(k)} {H(*a)}'
+
+    def judge(o):
+        i, m = o['I'][0], o['R'][0]
+        if engine_error(i, m):
+            return f'engine error {i} / {m}'
+        if not cmp_exact(i, m):
+            return f'impl != model@Rat impl={i} model={m}'
+        f = floats_of(i)
+        # the linear part and the translation of (k*ts) as an affine map vs k * affine(ts): c0, c3, c4, c5 (k * ts scales the translation and the scale)
+        if not close([f[3], f[6], f[7], f[8]], [f[9], f[12], f[13], f[14]], 0.0):
+            return f'(k * ts) as Affine != k * Affine::from(ts): {f[3:9]} vs {f[9:15]}'
+        return None
+    return Case(line, 'IR', judge, 'grid', 'corr-R')
+
+
+@maker(MAKERS)
 def exact_line(line, stratum):
     return case_exact_R(line, stratum)
 
@@ -377,5 +396,6 @@ def generate(rng, tier):
         ta = [g8(rng), g8(rng), rng.choice([1.0, 2.0, 0.5, -1.0, 0.25, 4.0, -0.5, g8(rng)])]
         tb = [g8(rng), g8(rng), rng.choice([1.0, 2.0, 0.5, -1.0, 0.25, 4.0, g8(rng)])]
         yield ts_bin(ta, tb, [g8(rng), g8(rng)])
+        yield ts_scalar(rng.choice([0.5, 2.0, -1.0, 3.0, 0.25, g8(rng)]), ta)
         tpow = [g8(rng), g8(rng), rng.choice([1.0, 2.0, 0.5, -1.0, 0.25, 4.0, -2.0])]
         yield exact_line(f'ts.shapes {H(*tpow)} {H(*[g8(rng) for _ in range(4 + 4 + 6 + 8)])}', 'grid')
